@@ -31,7 +31,8 @@ def run(ctx):
             ctx.tie_ok = False; ctx.broken.append({"kind": "harness build failed", "build": tag}); continue
         rc, out, err, cases, impl, stats = E.generate(ctx, exe, "C03", n_t, n_p, 70000, tag=tag)
         if rc != 0:
-            ctx.violation({"harness_rc": rc, "stderr": err[-3000:], "build": tag, "replay_cmd": "VERIF_SEED=%d python3 bin/check.py C03 --tier %s" % (ctx.seed, ctx.tier)},
+            tbl, lc = E.last_case(cases)
+            ctx.violation({"harness_rc": rc, "stderr": err[-3000:], "build": tag, "last_table": tbl, "last_case_line": lc, "replay_cmd": "VERIF_SEED=%d python3 bin/check.py C03 --tier %s" % (ctx.seed, ctx.tier)},
                           "path-comparison harness (%s) %s rc=%d: %s" % (tag, "timed out" if rc == 124 else "aborted", rc, err[-500:]))
             continue
         model = cases + ".model"
